@@ -483,6 +483,10 @@ class Interp(EngineBase):
     def equal(self, a, b, node):
         if a is None and b is None:
             return z3.BoolVal(True)
+        if isinstance(a, OptNum) and b is None:
+            return a.none
+        if isinstance(b, OptNum) and a is None:
+            return b.none
         if isinstance(a, (ObjV, ListObj, DictObj, Record)) or isinstance(b, (ObjV, ListObj, DictObj, Record)):
             if a is None or b is None:
                 return z3.BoolVal(False)
